@@ -36,6 +36,10 @@ pub struct PCase {
   pub n_hot: usize,
   pub root: Node,
   pub acts: Vec<PAct>,
+  /// the pipeline is built at once but subscribed only before action `sub_at`
+  /// (0 = immediately): inputs may have emitted or terminated by then
+  #[serde(default)]
+  pub sub_at: usize,
 }
 
 #[derive(Default, Debug)]
@@ -49,6 +53,7 @@ pub struct PRun {
   pub closed: Vec<(u64, bool)>,
   pub panic: Option<String>,
   pub post_terminal_inputs: u64,
+  pub late_subscribe_after_input_terminal: bool,
   pub inputs_terminated_total: u64,
   pub multi_ready: u64,
   pub clock_jumps: u64,
@@ -65,6 +70,8 @@ pub struct PRun {
   pub live_timers_end: usize,
   pub pulls: Vec<u64>,
   pub polls: Vec<u64>,
+  pub ticks: Vec<u64>,
+  pub ticker_instances: usize,
   /// virtual time at the end of the script (before quiescence)
   pub script_end_ns: u64,
 }
@@ -109,22 +116,42 @@ pub fn run_pipeline(case: &PCase) -> Result<PRun, String> {
   let mut run = PRun::default();
   let hots_l: Vec<Subject<'static, Val, E>> = (0..case.n_hot).map(|_| Subject::default()).collect();
   let hots_s: Vec<SubjectThreads<Val, E>> = (0..case.n_hot).map(|_| SubjectThreads::default()).collect();
+  enum Pending {
+    L(rxrust::ops::box_it::BoxOp<'static, Val, E>),
+    S(rxrust::ops::box_it::BoxOpThreads<Val, E>),
+  }
   let built = catch_unwind(AssertUnwindSafe(|| {
     if case.threads_flavour {
       let env = EnvS { hots: hots_s.clone(), counters: counters.clone() };
-      Handle::S(build_shared(&case.root, &env).actual_subscribe(Probe(log.clone())))
+      Pending::S(build_shared(&case.root, &env))
     } else {
       let env = EnvL { hots: hots_l.clone(), counters: counters.clone() };
-      Handle::L(build_local(&case.root, &env).actual_subscribe(Probe(log.clone())))
+      Pending::L(build_local(&case.root, &env))
     }
   }));
-  let mut handle = match built {
-    Ok(h) => Some(h),
+  let mut pending = match built {
+    Ok(p) => Some(p),
     Err(p) => {
-      run.panic = Some(format!("while subscribing: {}", panic_message(&*p)));
+      run.panic = Some(format!("while building: {}", panic_message(&*p)));
       None
     }
   };
+  let subscribe = |p: Pending, log: &Arc<ProbeLog>| -> Result<Handle, String> {
+    catch_unwind(AssertUnwindSafe(|| match p {
+      Pending::L(o) => Handle::L(o.actual_subscribe(Probe(log.clone()))),
+      Pending::S(o) => Handle::S(o.actual_subscribe(Probe(log.clone()))),
+    }))
+    .map_err(|p| format!("while subscribing: {}", panic_message(&*p)))
+  };
+  let mut handle: Option<Handle> = None;
+  if case.sub_at == 0 {
+    if let Some(p) = pending.take() {
+      match subscribe(p, &log) {
+        Ok(h) => handle = Some(h),
+        Err(e) => run.panic = Some(e),
+      }
+    }
+  }
   let mut done = vec![false; case.n_hot];
   let mut counts = vec![0i64; case.n_hot];
   let sample = |handle: &Option<Handle>, run: &mut PRun, w: &World| {
@@ -135,7 +162,22 @@ pub fn run_pipeline(case: &PCase) -> Result<PRun, String> {
   };
   sample(&handle, &mut run, &w);
   if run.panic.is_none() {
-    for a in &case.acts {
+    for (ai, a) in case.acts.iter().enumerate() {
+      if ai == case.sub_at {
+        if let Some(p) = pending.take() {
+          match subscribe(p, &log) {
+            Ok(h) => {
+              handle = Some(h);
+              run.trace.push_str("SUBSCRIBE ");
+              run.late_subscribe_after_input_terminal = done.iter().any(|d| *d);
+            }
+            Err(e) => {
+              run.panic = Some(e);
+              break;
+            }
+          }
+        }
+      }
       let r = catch_unwind(AssertUnwindSafe(|| match a {
         PAct::Emit { inp, ev } => {
           let i = *inp % case.n_hot;
@@ -206,13 +248,17 @@ pub fn run_pipeline(case: &PCase) -> Result<PRun, String> {
   if run.panic.is_none() {
     let r = catch_unwind(AssertUnwindSafe(|| {
       let mut polls = 0usize;
-      let horizon = w.now() + 120_000 * MS;
+      // long enough for every one-shot delay to run out, short enough that a
+      // periodic task that never retires costs a few thousand polls only
+      let horizon = w.now() + 2_000 * MS;
       loop {
         if w.ready_count() > 0 {
           polls += 1;
           let c = if case.fifo { 0 } else { polls * 5 + 1 };
           w.run_task(c);
-          if polls > 3000 {
+          // a run whose subscriber has not terminated has nothing to retire:
+          // no need to watch an unbounded producer for two virtual seconds
+          if polls > 300_000 || (polls > 3_000 && polls % 512 == 0 && !log.terminated()) {
             return false;
           }
         } else {
@@ -252,8 +298,11 @@ pub fn run_pipeline(case: &PCase) -> Result<PRun, String> {
   run.live_timers_end = w.live_timers();
   run.pulls = counters.pulls.lock().unwrap().clone();
   run.polls = counters.polls.lock().unwrap().clone();
+  run.ticks = counters.ticks.lock().unwrap().clone();
+  run.ticker_instances = counters.ticker_instances.load(SeqCst) as usize;
   // tear down inside the context; a panic here must not escape
   let _ = catch_unwind(AssertUnwindSafe(|| {
+    drop(pending);
     drop(handle);
     drop(hots_l);
     drop(hots_s);
